@@ -278,7 +278,52 @@ func (r *memoRunner) do1(op []string) string {
 	panic("harness: bad op " + op[0])
 }
 
+// -- Memoize: a caller that missed the cache just before another caller's execution finished
+//
+//	CASE memogate
+//	gate <v> => <number of invocations of fn> <value the outer caller received> <value cached>
+//
+// cache.Get formats the key into its "not found" error after releasing its lock, so a key type with a String()
+// method runs code exactly between the outer caller's cache miss and its group.Do.  In that window a second, complete
+// Memoize call for the same key is made (it runs fn and caches the value).  When the outer caller goes on the value IS
+// cached and has not expired: by the property it must be returned without invoking fn again.  One goroutine, no timing.
+type gateKey string
+
+var gateHook func()
+
+func (k gateKey) String() string {
+	if h := gateHook; h != nil {
+		gateHook = nil
+		h()
+	}
+	return string(k)
+}
+
+type memoGateRunner struct{}
+
+func (memoGateRunner) Do(op []string) string {
+	if op[0] != "gate" {
+		panic("harness: bad op " + op[0])
+	}
+	v := atoi(op[1])
+	m := gogu.NewMemoizer[gateKey, int](time.Hour, 0)
+	calls := 0
+	fn := func() (*cache.Item[int], error) {
+		calls++
+		aux := cache.New[string, int](cache.NoExpiration, 0)
+		aux.Set("v", v+calls-1, cache.NoExpiration) // the first execution yields v, a second one v+1
+		it, _ := aux.Get("v")
+		return it, nil
+	}
+	gateHook = func() { m.Memoize("k", fn) }
+	got, _ := m.Memoize("k", fn)
+	gateHook = nil
+	cached, _ := m.Cache.Get("k")
+	return itoa(calls) + " " + itoa(got.Val()) + " " + itoa(cached.Val())
+}
+
 func init() {
+	kinds["memogate"] = func(p []string) Runner { return memoGateRunner{} }
 	timedKinds["memo"] = true
 	kinds["memo"] = func(p []string) Runner {
 		r := &memoRunner{
@@ -294,6 +339,10 @@ func init() {
 var memoLat = []int{0, 5, 40}
 
 func genC17(g *Gen) {
+	// (0) a complete call for the same key inside the window between the outer caller's cache miss and its group.Do
+	if g.Mine() {
+		g.Emit("memogate", nil, []string{"gate 7", "gate 0", "gate -3"})
+	}
 	// (1) every sequential call pattern: letters = key {0,1} x outcome {v,e} x {sleep past expiry afterwards or not},
 	//     latency cycling through {5,0,40}; Cache.Get of both keys after every call; expiration none / 30 ms.
 	maxLen := 4
